@@ -62,6 +62,18 @@ func (o *C14) sweep(w *World) {
 					return
 				}
 			}
+			// ... and every shift of one or two characters between any two of its variable-length fields
+			for _, x := range crossShifts(truth) {
+				if x.ev.Validate(mhub2types.ChainID(ch)) != nil || x.ev.String() == truth.String() {
+					continue
+				}
+				w.St.Check("C14:separate-records")
+				w.St.Probe("enumerated:" + tn + ":xshift")
+				if bytes.Equal(th, x.ev.Hash()) {
+					w.Fail("C14", "separate-records", tn+":"+x.name, fmt.Sprintf("%s nonce %d: the true %s and an admissible copy in which characters moved between two fields (%s) get the same claim identifier %x (true: %s | copy: %s)", ch, n, tn, x.name, th, truth.String(), x.ev.String()))
+					return
+				}
+			}
 		}
 	}
 }
